@@ -60,7 +60,8 @@ def gen_case(rng, big=False):
     later = rng.choice([None, 'derive', 'grow', 'interleave', 'edit-bounds', 'remove-columns', 'set-fmt'])
     centered = rng.choice([None, None, 'a', 'b', 'd'])
     # how the records are made and how the table learns where the values are
-    shape = rng.choice([None] * 9 + ['namedtuple', 'dict-paths', 'pos-paths', 'attr', 'field-objects'])
+    shape = rng.choice([None] * 9 + ['namedtuple', 'dict-paths', 'pos-paths', 'attr', 'field-objects',
+                                     'attr-of-a-mapping', 'case-twins'])
     if shape:
         later = None
     if rng.random() < 0.012:
@@ -95,6 +96,10 @@ def rng_free_len(c):
 _REC = collections.namedtuple("Rec", T.FIELDS)
 
 
+class MappingRecord(dict):
+    """a record class of the application: a dict with attributes"""
+
+
 class ComputedField(RecordField):
     """a field of the application whose value is not simply an element of the record"""
 
@@ -120,6 +125,20 @@ def shaped(c):
         return [_REC(*r) for r in recs], fmt, None
     if shape == 'attr':
         return [types.SimpleNamespace(**dict(zip(T.FIELDS, r))) for r in recs], fmt, None
+    if shape == 'attr-of-a-mapping':
+        # the records are mappings of the application (a dict subclass) whose ATTRIBUTES hold the values; keys of the
+        # same names exist too and hold something else
+        out = []
+        for r in recs:
+            m = MappingRecord({f: "key " + f for f in T.FIELDS})
+            m.__dict__.update(zip(T.FIELDS, r))
+            out.append(m)
+        return out, fmt, None
+    if shape == 'case-twins':
+        # every field has a twin whose name differs in the case of the letters only (id / ID); the format names the
+        # small ones
+        return ([tuple(r) + tuple("twin of " + f for f in T.FIELDS) for r in recs], fmt,
+                list(T.FIELDS) + [f.upper() for f in T.FIELDS])
     cols, sep, rest = fmt.partition(";")
     out = []
     for col in cols.split(","):
